@@ -118,6 +118,17 @@ def program_bytes_verbatim(chk, repo):
                      if isinstance(m, ast.Name)}
             srcs = [oc for a, nm, oc in reads
                     if nm in names and inside(c, arm_of(a, fn))]
+            # the handle read directly in the argument: f.read() under
+            # `with open(...) as f`
+            cur = getattr(c, "_parent", None)
+            while cur is not None and cur is not fn:
+                if isinstance(cur, ast.With):
+                    for item in cur.items:
+                        if isinstance(item.optional_vars, ast.Name) \
+                                and item.optional_vars.id in names \
+                                and isinstance(item.context_expr, ast.Call):
+                            srcs.append(item.context_expr)
+                cur = getattr(cur, "_parent", None)
             bad = [oc for oc in srcs if not open_info(oc)]
             chk.ob("C20.program-bytes-read-verbatim",
                    f"main.{fn.name}:{ast.unparse(c)[:50]}",
